@@ -23,7 +23,7 @@ func VerifC05USDValue() {
 	a2 := verifrt.Int("amount2")
 	p := verifrt.Int("price")
 	p2 := verifrt.Int("price2")
-	verifrt.Assume(!a.IsNegative() && a.LTE(a2) && a2.LTE(max) && !p.IsNegative() && p.LTE(p2) && p2.LTE(max))
+	verifrt.Assume(verifrt.All(!a.IsNegative(), a.LTE(a2), a2.LTE(max), !p.IsNegative(), p.LTE(p2), p2.LTE(max)))
 	d := verifrt.Choice("asset_decimals", 19)
 	pd := verifrt.Choice("price_decimals", 19)
 	if verifrt.Param("all_price_decimals", 0) == 0 && pd != 0 && pd != 8 && pd != 18 {
